@@ -575,7 +575,8 @@ static void put_pollset (const char *tag, const struct pollfd *f, nfds_t n, int 
  * suspended the connection (`race <c>`): there the script resumes the connection and lets the daemon thread process
  * the resume before the connection's thread is back at its loop head. */
 #define TD MAXC
-struct tslot { int live, parked, go, exited, mid, expect; struct pollfd *fds; nfds_t n; int timeout; };
+struct tslot { int live, parked, go, exited, mid, expect; struct pollfd *fds; nfds_t n; int timeout;
+               int sel, snf; fd_set *srs, *sws, *ses; };   /* sel: the thread is parked in select() (mode tpc-select) */
 static struct tslot ts[MAXC + 1];
 static int tgate_on;
 static __thread int my_slot = -1;
@@ -593,7 +594,56 @@ static void t_thread_gone (void *v)
 }
 
 static int t_itc_fd (void) { return (d && MHD_ITC_IS_VALID_ (d->itc)) ? (int) MHD_itc_r_fd_ (d->itc) : -1; }
-static int t_on_itc (int s) { return ts[s].n >= 1 && ts[s].fds[0].fd == t_itc_fd (); }
+static int (*real_select) (int, fd_set *, fd_set *, fd_set *, struct timeval *);
+static int t_sock_fd (int s) { return (s >= 0 && s < MAXC && conns[s].mc) ? (int) conns[s].mc->socket_fd : -1; }
+static int t_on_itc (int s)
+{
+  if (ts[s].sel) return NULL != ts[s].srs && t_itc_fd () >= 0 && FD_ISSET (t_itc_fd (), ts[s].srs) && NULL == ts[s].sws;
+  return ts[s].n >= 1 && ts[s].fds[0].fd == t_itc_fd ();
+}
+
+/* the same gate for select(): the daemon thread (MHD_select on the ITC) and the connections' threads */
+static int tgate_select (int nfds, fd_set *rs, fd_set *ws, fd_set *es, struct timeval *tv)
+{
+  int s = my_slot, r, c, fd;
+  struct timeval zero = {0, 0};
+  if (s < 0)
+  {
+    s = TD;
+    for (c = 0; c < MAXC; c++)
+    {
+      fd = (conns[c].used && conns[c].mc) ? (int) conns[c].mc->socket_fd : -1;
+      if (fd >= 0 && fd < nfds && ((rs && FD_ISSET (fd, rs)) || (ws && FD_ISSET (fd, ws)) || (es && FD_ISSET (fd, es)))) { s = c; break; }
+    }
+    my_slot = s;
+    if (t_key_ok && s != TD) pthread_setspecific (t_key, (void *) (intptr_t) (s + 1));
+  }
+  pthread_mutex_lock (&gate_mx);
+  ts[s].sel = 1; ts[s].snf = nfds; ts[s].srs = rs; ts[s].sws = ws; ts[s].ses = es;
+  ts[s].timeout = (NULL == tv) ? -1 : (int) (tv->tv_sec * 1000 + tv->tv_usec / 1000);
+  ts[s].live = 1; ts[s].parked = 1;
+  pthread_cond_broadcast (&gate_cv);
+  while (!ts[s].go && !gate_free) pthread_cond_wait (&gate_cv, &gate_mx);
+  ts[s].go = 0; ts[s].parked = 0;
+  pthread_mutex_unlock (&gate_mx);
+  if (gate_free) return real_select (nfds, rs, ws, es, tv);
+  r = real_select (nfds, rs, ws, es, &zero);
+  pthread_mutex_lock (&out_mx);
+  fd = t_sock_fd (s);
+  if (TD == s) printf ("passed who=D itc=%d\n", (rs && t_itc_fd () >= 0 && FD_ISSET (t_itc_fd (), rs)) ? 1 : 0);
+  else if (NULL == ws) printf ("passed who=%d on=itc itc=%d\n", s, (rs && t_itc_fd () >= 0 && FD_ISSET (t_itc_fd (), rs)) ? 1 : 0);
+  else printf ("passed who=%d on=sock r=%d w=%d e=%d\n", s, (fd >= 0 && rs && FD_ISSET (fd, rs)) ? 1 : 0, (fd >= 0 && ws && FD_ISSET (fd, ws)) ? 1 : 0,
+               (fd >= 0 && es && FD_ISSET (fd, es)) ? 1 : 0);
+  pthread_mutex_unlock (&out_mx);
+  return r;
+}
+
+int select (int nfds, fd_set *rs, fd_set *ws, fd_set *es, struct timeval *tv)
+{
+  if (NULL == real_select) real_select = (int (*)(int, fd_set *, fd_set *, fd_set *, struct timeval *)) dlsym (RTLD_NEXT, "select");
+  if (tgate_on && !gate_free && !pthread_equal (pthread_self (), main_thr)) return tgate_select (nfds, rs, ws, es, tv);
+  return real_select (nfds, rs, ws, es, tv);
+}
 
 static int tgate_poll (struct pollfd *fds, nfds_t nfds, int timeout)
 {
@@ -607,7 +657,7 @@ static int tgate_poll (struct pollfd *fds, nfds_t nfds, int timeout)
     if (t_key_ok && s != TD) pthread_setspecific (t_key, (void *) (intptr_t) (s + 1));
   }
   pthread_mutex_lock (&gate_mx);
-  ts[s].fds = fds; ts[s].n = nfds; ts[s].timeout = timeout; ts[s].live = 1; ts[s].parked = 1;
+  ts[s].sel = 0; ts[s].fds = fds; ts[s].n = nfds; ts[s].timeout = timeout; ts[s].live = 1; ts[s].parked = 1;
   pthread_cond_broadcast (&gate_cv);
   while (!ts[s].go && !gate_free) pthread_cond_wait (&gate_cv, &gate_mx);
   ts[s].go = 0; ts[s].parked = 0;
@@ -660,10 +710,22 @@ static int t_wanted (int s, int advance)
 {
   struct pollfd cp[4]; nfds_t n;
   if (!ts[s].live || !ts[s].parked) return 0;
-  n = ts[s].n < 4 ? ts[s].n : 4;
   if (0 == ts[s].timeout) return 1;
-  memcpy (cp, ts[s].fds, n * sizeof(cp[0]));
-  if (real_poll (cp, n, 0) > 0) return 1;
+  if (ts[s].sel)
+  {
+    fd_set a, b, c; struct timeval zero = {0, 0};
+    FD_ZERO (&a); FD_ZERO (&b); FD_ZERO (&c);
+    if (ts[s].srs) a = *ts[s].srs;
+    if (ts[s].sws) b = *ts[s].sws;
+    if (ts[s].ses) c = *ts[s].ses;
+    if (real_select (ts[s].snf, &a, &b, &c, &zero) > 0) return 1;
+  }
+  else
+  {
+    n = ts[s].n < 4 ? ts[s].n : 4;
+    memcpy (cp, ts[s].fds, n * sizeof(cp[0]));
+    if (real_poll (cp, n, 0) > 0) return 1;
+  }
   if (ts[s].timeout > 0 && !(TD != s && t_on_itc (s)))
   { if (advance) { vclock_ms += (uint64_t) ts[s].timeout; printf ("slept %d\n", ts[s].timeout); } return 1; }
   return 0;
@@ -674,6 +736,10 @@ static void t_put_block (int s)
   if (ts[s].exited) { printf ("texit who=%d\n", s); return; }
   if (TD == s) { printf ("tpark who=D tmo=%d\n", ts[s].timeout); return; }
   if (t_on_itc (s)) { printf ("tpark who=%d on=itc ev=r tmo=%d\n", s, ts[s].timeout); return; }
+  if (ts[s].sel)
+  { int fd = t_sock_fd (s);
+    int r = fd >= 0 && ts[s].srs && FD_ISSET (fd, ts[s].srs), w = fd >= 0 && ts[s].sws && FD_ISSET (fd, ts[s].sws), e = fd >= 0 && ts[s].ses && FD_ISSET (fd, ts[s].ses);
+    printf ("tpark who=%d on=sock ev=%s%s%s tmo=%d\n", s, r ? "r" : "", w ? "w" : "", (e && !r && !w) ? "e" : "", ts[s].timeout); return; }
   printf ("tpark who=%d on=sock ev=%s%s%s tmo=%d\n", s, (ts[s].fds[0].events & POLLIN) ? "r" : "", (ts[s].fds[0].events & POLLOUT) ? "w" : "",
           (0 == (ts[s].fds[0].events & (POLLIN | POLLOUT))) ? "e" : "", ts[s].timeout);
 }
@@ -942,6 +1008,7 @@ static void start_daemon (void)
   else if (!strcmp (cfg.mode, "select-thr")) flags |= MHD_USE_INTERNAL_POLLING_THREAD | MHD_USE_ITC;
   else if (!strcmp (cfg.mode, "epoll-thr")) flags |= MHD_USE_EPOLL | MHD_USE_INTERNAL_POLLING_THREAD | MHD_USE_ITC;
   else if (!strcmp (cfg.mode, "tpc")) flags |= MHD_USE_THREAD_PER_CONNECTION | MHD_USE_INTERNAL_POLLING_THREAD | MHD_USE_ITC;
+  else if (!strcmp (cfg.mode, "tpc-select")) flags |= MHD_USE_THREAD_PER_CONNECTION | MHD_USE_INTERNAL_POLLING_THREAD | MHD_USE_ITC;
   else if (!strcmp (cfg.mode, "tpc-poll")) flags |= MHD_USE_POLL | MHD_USE_THREAD_PER_CONNECTION | MHD_USE_INTERNAL_POLLING_THREAD | MHD_USE_ITC;
   if (cfg.mem) { ops[n].option = MHD_OPTION_CONNECTION_MEMORY_LIMIT; ops[n].value = (intptr_t) cfg.mem; ops[n++].ptr_value = NULL; }
   if (cfg.incr) { ops[n].option = MHD_OPTION_CONNECTION_MEMORY_INCREMENT; ops[n].value = (intptr_t) cfg.incr; ops[n++].ptr_value = NULL; }
@@ -959,7 +1026,9 @@ static void start_daemon (void)
   main_thr = pthread_self ();
   gate_free = 0; gate_go = 0; gate_parked = 0;
   gate_on = !strcmp (cfg.mode, "poll-thr");
-  tgate_on = !strcmp (cfg.mode, "tpc-poll");
+  tgate_on = !strcmp (cfg.mode, "tpc-poll") || !strcmp (cfg.mode, "tpc-select");
+  if (NULL == real_select) real_select = (int (*)(int, fd_set *, fd_set *, fd_set *, struct timeval *)) dlsym (RTLD_NEXT, "select");
+  if (NULL == real_poll) real_poll = (int (*)(struct pollfd *, nfds_t, int)) dlsym (RTLD_NEXT, "poll");
   memset (ts, 0, sizeof(ts)); memset (race_arm, 0, sizeof(race_arm));
   if (tgate_on && !t_key_ok) t_key_ok = (0 == pthread_key_create (&t_key, &t_thread_gone));
   d = MHD_start_daemon (flags, 0, NULL, NULL, &handler, NULL, MHD_OPTION_ARRAY, ops, MHD_OPTION_END);
